@@ -694,6 +694,8 @@ def ident(E, a, b):
 
 
 def contains(E, item, cont):
+    if hasattr(cont, "pyvc_contains"):
+        return cont.pyvc_contains(E, item)
     if isinstance(cont, range):
         if cont.step != 1:
             raise Unsupported("range step")
@@ -880,6 +882,8 @@ def check_elem(E, kind, x):
 # ------------------------------------------------------------------ methods of engine values
 
 def method(E, obj, name, args, kwargs):
+    if hasattr(obj, "pyvc_method"):
+        return obj.pyvc_method(E, name, args, kwargs)
     if isinstance(obj, SSeq):
         return seq_method(E, obj, name, args, kwargs)
     if isinstance(obj, list):
@@ -1133,6 +1137,8 @@ def sref_set(E, ref, name, v):
 def m_len(E, v):
     if isinstance(v, SOpt):
         v = E.deopt(v)
+    if hasattr(v, "pyvc_len"):
+        return v.pyvc_len(E)
     if isinstance(v, SSeq):
         return wrap_int(v.length) if not isinstance(v.length, int) else v.length
     if isinstance(v, (list, tuple, str, bytes, dict, bytearray, range)):
@@ -1563,3 +1569,36 @@ def m_lock(E):
 def m_sleep(E, t):
     E.ghost.setdefault("sleep", []).append(t)
     return None
+
+
+class SetList:
+    """A python list known to hold pairwise distinct symbolic-identity objects, abstracted to
+    (membership array over ids, length).  Supports: in, append, remove, len, truth."""
+
+    def __init__(self, member, length, ident):
+        self.member, self.length, self.ident = member, length, ident     # ident(value) -> id term
+
+    def pyvc_contains(self, E, item):
+        return wrap_bool(z3.Select(self.member, self.ident(item)))
+
+    def pyvc_len(self, E):
+        return wrap_int(self.length)
+
+    def pyvc_truth(self, E):
+        return E.branch(self.length > 0)
+
+    def pyvc_method(self, E, name, args, kwargs):
+        if name == "append":
+            i = self.ident(args[0])
+            E.require("append_keeps_list_duplicate_free", z3.Not(z3.Select(self.member, i)), kind="inv")
+            self.member = z3.Store(self.member, i, z3.BoolVal(True))
+            self.length = self.length + 1
+            return None
+        if name == "remove":
+            i = self.ident(args[0])
+            if not E.branch(z3.Select(self.member, i)):
+                E.raise_(ValueError, "list.remove(x): x not in list", implicit="remove")
+            self.member = z3.Store(self.member, i, z3.BoolVal(False))
+            self.length = self.length - 1
+            return None
+        raise Unsupported("SetList.%s" % name)
